@@ -20,7 +20,7 @@ struct ref_line {
         bool exact;              /* exact name match (else unique prefix) */
         bool crlf;               /* responses to this line use CRLF */
         uint8_t args[INCAP / 16]; size_t nargs;   /* WRITE: argument bytes, CR removed */
-        char typed[64]; size_t ntyped;
+        char typed[640]; size_t ntyped;
 };
 /* line = bytes of one input line without its LF; capA = command buffer capacity */
 void ref_parse_line(const uint8_t *line, size_t len, size_t capA, struct ref_line *r);
